@@ -30,7 +30,7 @@ struct MonHooks : ExecHooks {
     unsigned long seen_double = 0, seen_foreign = 0, seen_nonzero = 0, seen_failed = 0;
     bool check_live = true;
 
-    void reset(int align_mode = 0) { held.clear(); live_before = 0; skv_mon_align_mode(align_mode); skv_mon_reset(); seen_double = seen_foreign = seen_nonzero = seen_failed = 0; cleanups_of_live = rich_cleanups = 0; max_nonzero_before = 0; block_sizes.clear(); }
+    void reset(int align_mode = 0) { held.clear(); live_before = 0; live_after.clear(); skv_mon_align_mode(align_mode); skv_mon_reset(); seen_double = seen_foreign = seen_nonzero = seen_failed = 0; cleanups_of_live = rich_cleanups = 0; max_nonzero_before = 0; block_sizes.clear(); }
 
     // blocks the library holds on behalf of each object: whatever it allocates during a call on object s is charged to s,
     // whatever it frees is credited.  How many blocks an object takes, and when it takes them, is the implementation's
@@ -38,6 +38,7 @@ struct MonHooks : ExecHooks {
     // the property.
     std::map<long long, long> held;
     int live_before = 0;
+    std::vector<int> live_after;     // number of blocks the library holds after each op of the run
     void call_pre(const Op &op) override {
         long long k = op.geti("failat", 0);
         if (k > 0) skv_mon_fail_at((unsigned long)k);
@@ -57,6 +58,7 @@ struct MonHooks : ExecHooks {
             seen_nonzero = skv_mon_nonzero();
         }
         if (skv_mon_failed() != seen_failed) { r.pub += ";inj"; seen_failed = skv_mon_failed(); }
+        live_after.push_back(skv_mon_live());
         if (check_live) {
             long long sl = op.geti("s", -1);
             long delta = (long)skv_mon_live() - (long)live_before;
